@@ -14,7 +14,7 @@ from vf.strategies import sized_binary, uniform_int
 
 P, R = B.P, B.R
 RULE = ("map_to_curve_G1/G2 (and optimized_swu_G1/G2, iso_map_G1/G2) on Hypothesis-generated field elements "
-        "u - {0, 1, -1, 2, (p-1)/2, (p+1)/2}, the two non-zero roots of Z^2u^4+Zu^2 in Fp, every zero/parity "
+        "u - {0, 1, -1, 2, (p-1)/2, (p+1)/2}, the two non-zero roots of Z^2u^4+Zu^2 in Fp, the 16 elements of Fp whose SWU image lies in the rational kernel of the 11-isogeny (the map must give the identity), every zero/parity "
         "pattern of (re, im) in Fp2, uniform - compared with the RFC 9380 straight-line simplified SWU "
         "(real inversions and square roots) followed by the isogeny as an affine rational map; "
         "sgn0(y') = sgn0(u) on the isogenous curve; hash_to_G1/G2 on generated (message, DST <= 255 bytes, "
@@ -27,7 +27,7 @@ ASSUMPTIONS = ["RFC 9380 model vf/model/h2c.py, anchored by the RFC J.9.1/J.10.1
                "the homomorphism self-checks", "hashlib digests are correct (shared by model and library)"]
 ENGINE = "hypothesis"
 TECHNIQUE = ("differential property-based testing (Hypothesis) against a straight-line RFC 9380 model anchored by the RFC vectors")
-_REQ = ["map:G1:branch=x1", "map:G1:branch=x2", "map:G2:branch=x1", "map:G2:branch=x2", "map:G1:exceptional",
+_REQ = ["map:G1:branch=x1", "map:G1:branch=x2", "map:G2:branch=x1", "map:G2:branch=x2", "map:G1:exceptional", "map:G1:image=identity",
         "map:G2:exceptional", "map:G2:u_re=0", "map:G2:u_im=0", "map:G2:fq_object_coefficients", "map:G1:sgn0(u)=1", "map:G2:sgn0(u)=1",
         "h2c:G1:dst_len=255", "h2c:G2:dst_len=255", "h2c:G1:dst_len=0", "h2c:G2:dst_len=0",
         "h2c:G2:hash=sha512", "h2c:G1:hash=sha512"]
@@ -136,7 +136,7 @@ SPECIAL = (0, 1, P - 1, 2, P - 2, (P - 1) // 2, (P + 1) // 2, 3, 11)
 
 def s_u(g):
     if g == "G1":
-        exc = h2c.exceptional_us("G1")
+        exc = h2c.exceptional_us("G1") + h2c.iso_kernel_us("G1")
         return st.one_of(st.sampled_from(SPECIAL + tuple(exc)), uniform_int(0, P - 1), uniform_int(0, P - 1),
                          st.integers(0, 1 << 16)).map(lambda u: {"g": "G1", "u": u})
     comp = st.one_of(st.sampled_from(SPECIAL), st.just(0), uniform_int(0, P - 1), uniform_int(0, P - 1))
@@ -156,7 +156,7 @@ def s_h2c(g, big):
 
 def _u_examples(g):
     if g == "G1":
-        return [{"g": g, "u": u} for u in SPECIAL + tuple(h2c.exceptional_us("G1"))]
+        return [{"g": g, "u": u} for u in SPECIAL + tuple(h2c.exceptional_us("G1")) + tuple(h2c.iso_kernel_us("G1"))]
     vals = (0, 1, P - 1, 2, (P - 1) // 2, (P + 1) // 2)
     return [{"g": g, "u": [a, b], "fq_coeffs": fq} for a in vals for b in vals for fq in (False, True)]
 
